@@ -7,7 +7,9 @@
    policy, the current first-free one included ([None]).  [blocks_of p k] are the blocks subscriber k holds.
    Variant [repaired] = /repo HEAD: all seven fixes/C15_*.patch are committed (285c7b2 restore validation, 7d1d0b3
    reverse Add replace, 3b1c45d outside-address dedup, 0cedd79 HA-synced rollback, 53e73c2 inside-VRF key, 1fd8c60
-   cross-pool overlap rejected, 8d8ac1d late add completion reconciled).  No C15 finding is open.  The [_refuted]
+   cross-pool overlap rejected, 8d8ac1d late add completion reconciled) and two are open (audit round 2: Validate
+   accepts a reversed port range / a derived block size 0; a release ignores a mapping preserved by the degraded
+   restore -- see "open findings" below).  The [_refuted]
    theorems below are historical witnesses against the code before the named commit; [defective] = before all of
    them.
    [wf_range r]: port-range start <= end <= 65535 (not checked by cgnat.Config.Validate; listed as an assumption). *)
@@ -16,45 +18,45 @@ Local Open Scope N_scope.
 
 (* two different subscribers never hold overlapping port ranges on one public address *)
 Theorem C15_disjoint :
-  forall r p0 ops, wf_range r -> configure repaired r = Some p0 ->
+  forall r p0 ops, setup repaired r = Some p0 ->
   forall k1 k2 b1 b2, k1 <> k2 ->
     In b1 (blocks_of (run repaired (effective r) p0 ops) k1) ->
     In b2 (blocks_of (run repaired (effective r) p0 ops) k2) ->
     b_ip b1 = b_ip b2 -> b_end b1 < b_start b2 \/ b_end b2 < b_start b1.
-Proof. exact disjoint_all. Qed.
+Proof. intros r p0 ops Hs. exact (s_disjoint r p0 Hs ops). Qed.
 Print Assumptions C15_disjoint.
 
 (* every held block is on a configured, non-excluded public address, starts on a block boundary inside the port
    range, is exactly one block long and ends inside the range *)
 Theorem C15_in_range_aligned_not_excluded :
-  forall r p0 ops, wf_range r -> configure repaired r = Some p0 ->
+  forall r p0 ops, setup repaired r = Some p0 ->
   forall k b, In b (blocks_of (run repaired (effective r) p0 ops) k) ->
     In (b_ip b) (flat_map expand (r_outside r)) /\ ~ In (b_ip b) (r_excluded r) /\
     c_pstart (effective r) <= b_start b /\ (b_start b - c_pstart (effective r)) mod c_bs (effective r) = 0 /\
     b_end b = b_start b + c_bs (effective r) - 1 /\ b_end b <= c_pend (effective r).
-Proof. exact in_range_all. Qed.
+Proof. intros r p0 ops Hs. exact (s_in_range r p0 Hs ops). Qed.
 Print Assumptions C15_in_range_aligned_not_excluded.
 
 (* a subscriber never holds more blocks than max-blocks-per-subscriber *)
 Theorem C15_limit :
-  forall r p0 ops, wf_range r -> configure repaired r = Some p0 ->
+  forall r p0 ops, setup repaired r = Some p0 ->
   forall k, N.of_nat (length (blocks_of (run repaired (effective r) p0 ops) k)) <= c_max (effective r).
-Proof. exact limit_all. Qed.
+Proof. intros r p0 ops Hs. exact (s_limit r p0 Hs ops). Qed.
 Print Assumptions C15_limit.
 
 (* with paired pooling all blocks of a subscriber are on one public address *)
 Theorem C15_paired_single_ip :
-  forall r p0 ops, wf_range r -> configure repaired r = Some p0 ->
+  forall r p0 ops, setup repaired r = Some p0 ->
   forall k b1 b2, c_paired (effective r) = true ->
     In b1 (blocks_of (run repaired (effective r) p0 ops) k) ->
     In b2 (blocks_of (run repaired (effective r) p0 ops) k) -> b_ip b1 = b_ip b2.
-Proof. exact paired_all. Qed.
+Proof. intros r p0 ops Hs. exact (s_paired r p0 Hs ops). Qed.
 Print Assumptions C15_paired_single_ip.
 
 (* releasing a subscriber leaves it without blocks; none of its former blocks is held by anybody, and each of them
    can be granted again to any subscriber whose limit and pairing allow it *)
 Theorem C15_release_frees_all :
-  forall r p0 ops k, wf_range r -> configure repaired r = Some p0 ->
+  forall r p0 ops k, setup repaired r = Some p0 ->
   let c := effective r in
   let p := run repaired c p0 ops in
   let p' := fst (step repaired c p (ORelease k)) in
@@ -64,16 +66,16 @@ Theorem C15_release_frees_all :
     (forall k', limit_reached c p' k' = false ->
                 (c_paired c = true -> forall b', In b' (blocks_of p' k') -> b_ip b' = b_ip b) ->
                 exists p'', alloc_obs c p' k' b = Some p'').
-Proof. exact release_frees_all. Qed.
+Proof. intros r p0 ops k Hs. exact (s_release_frees_all r p0 Hs ops k). Qed.
 Print Assumptions C15_release_frees_all.
 
 (* the block the first-free algorithm of the code picks is admissible, and granting it through the admissibility
    check gives the same state: the theorems above cover the current policy *)
 Theorem C15_first_free_admissible :
-  forall r p0 ops k b p', wf_range r -> configure repaired r = Some p0 ->
+  forall r p0 ops k b p', setup repaired r = Some p0 ->
   alloc_literal (effective r) (run repaired (effective r) p0 ops) k = inr (b, p') ->
   alloc_obs (effective r) (run repaired (effective r) p0 ops) k b = Some p'.
-Proof. exact first_free_admissible. Qed.
+Proof. intros r p0 ops k b p' Hs. exact (s_first_free r p0 Hs ops k b p'). Qed.
 Print Assumptions C15_first_free_admissible.
 
 (* ---- component level: the reverse index as maintained by component.go's call order ---- *)
@@ -90,7 +92,7 @@ Print Assumptions C15_first_free_admissible.
    with the inside VRF / address it was activated with).  Without it a release that names another address than the
    in-flight activation cancels the activation but releases the wrong subscriber's blocks. *)
 Theorem C15_reverse_lookup_exact :
-  forall r p0 f ops, wf_range r -> configure repaired r = Some p0 -> forallb (keyed f) ops = true ->
+  forall r p0 f ops, setup repaired r = Some p0 -> forallb (keyed f) ops = true ->
   forall ip port,
   match rev_lookup (cp_rev (crun repaired (effective r) (comp_init p0) ops)) ip port with
   | Some m => In (m_blk m) (blocks_of (cp_pool (crun repaired (effective r) (comp_init p0) ops)) (m_sub m)) /\
@@ -101,23 +103,23 @@ Theorem C15_reverse_lookup_exact :
                         covers b ip port = true ->
                         exists sid, In (sid, k, b) (cp_pend (crun repaired (effective r) (comp_init p0) ops))
   end.
-Proof. intros r p0 f ops Hr Hc K ip port. exact (reverse_lookup_exact_all r p0 f ops ip port Hr Hc K). Qed.
+Proof. intros r p0 f ops Hs K ip port. exact (s_lookup_exact r p0 Hs f ops ip port K). Qed.
 Print Assumptions C15_reverse_lookup_exact.
 
 (* whenever no add is in flight, "no answer" means "no held block covers the port" *)
 Theorem C15_reverse_lookup_exact_quiescent :
-  forall r p0 f ops ip port, wf_range r -> configure repaired r = Some p0 -> forallb (keyed f) ops = true ->
+  forall r p0 f ops ip port, setup repaired r = Some p0 -> forallb (keyed f) ops = true ->
   cp_pend (crun repaired (effective r) (comp_init p0) ops) = [] ->
   rev_lookup (cp_rev (crun repaired (effective r) (comp_init p0) ops)) ip port = None ->
   forall k b, In b (blocks_of (cp_pool (crun repaired (effective r) (comp_init p0) ops)) k) -> covers b ip port = false.
-Proof. exact reverse_lookup_exact_quiescent. Qed.
+Proof. intros r p0 f ops ip port Hs. exact (s_lookup_quiescent r p0 Hs f ops ip port). Qed.
 Print Assumptions C15_reverse_lookup_exact_quiescent.
 
 (* the pool inside the component: disjoint, in range / aligned / not excluded, limit, pairing -- for EVERY component
    history, dataplane adds completing late and in any order included (the component only ever performs pool
    operations: Proofs.crun_refines) *)
 Theorem C15_component_pool_properties :
-  forall r p0 ops, wf_range r -> configure repaired r = Some p0 ->
+  forall r p0 ops, setup repaired r = Some p0 ->
   let c := effective r in
   let s := crun repaired c (comp_init p0) ops in
   (forall k1 k2 b1 b2, k1 <> k2 -> In b1 (blocks_of (cp_pool s) k1) -> In b2 (blocks_of (cp_pool s) k2) ->
@@ -129,7 +131,7 @@ Theorem C15_component_pool_properties :
   (forall k, N.of_nat (length (blocks_of (cp_pool s) k)) <= c_max c) /\
   (c_paired c = true -> forall k b1 b2, In b1 (blocks_of (cp_pool s) k) -> In b2 (blocks_of (cp_pool s) k) ->
      b_ip b1 = b_ip b2).
-Proof. exact comp_pool_props_all. Qed.
+Proof. intros r p0 ops Hs. exact (s_comp_pool_props r p0 Hs ops). Qed.
 Print Assumptions C15_component_pool_properties.
 
 (* the component only ever performs pool operations: its pool is the result of some pool-level history *)
@@ -150,12 +152,45 @@ Print Assumptions C15_activation_grants_own_block.
 (* several pools on one PoolManager, configuration accepted by Config.Validate (no outside address in two pools):
    two holders that differ in pool or in subscriber never overlap *)
 Theorem C15_disjoint_across_pools :
-  forall rs ps ops, (forall r, In r rs -> wf_range r) -> mconfigure repaired rs = Some ps ->
+  forall rs ps ops, mconfigure repaired rs = Some ps ->
   forall i j k1 k2 b1 b2, (i <> j \/ k1 <> k2) ->
     In b1 (mblocks (mrun repaired ps ops) i k1) -> In b2 (mblocks (mrun repaired ps ops) j k2) ->
     b_ip b1 = b_ip b2 -> b_end b1 < b_start b2 \/ b_end b2 < b_start b1.
 Proof. exact mdisjoint. Qed.
 Print Assumptions C15_disjoint_across_pools.
+
+(* [setup repaired r = Some p0] -- the hypothesis of the theorems above -- is exactly "Config.Validate accepts the
+   pool": an accepted pool never makes ConfigurePool panic, and its port range is well formed *)
+Theorem C15_accepted_pool_is_configurable :
+  forall r, pool_ok r = true -> (exists p0, setup repaired r = Some p0) /\ wf_range r.
+Proof. intros r H. split; [exact (setup_total r H)|exact (pool_ok_wf r H)]. Qed.
+Print Assumptions C15_accepted_pool_is_configurable.
+
+(* Releasing a subscriber at component level.  For every component history (hypothesis [keyed f] as in
+   C15_reverse_lookup_exact): a release event for a session the component knows -- committed, with its dataplane add
+   still in flight, or preserved by the degraded restore branch -- leaves the session's subscriber [f sid] without
+   blocks and without reverse entries, forgets the session in all three books, and every block the subscriber held
+   can be granted again to anyone whose limit and pairing allow it.  (A release for a session the component has
+   never seen is a no-op: nothing was installed for it.) *)
+Theorem C15_component_release_frees_all :
+  forall r p0 f ops sid dl, setup repaired r = Some p0 -> forallb (keyed f) ops = true ->
+  let c := effective r in
+  let s := crun repaired c (comp_init p0) ops in
+  let k := f sid in
+  existsb (N.eqb sid) (cp_sess s) || existsb (fun e => pend_sid e =? sid) (cp_pend s)
+    || existsb (N.eqb sid) (cp_deg s) = true ->
+  let s' := fst (cstep repaired c s (CRelease sid k dl)) in
+  blocks_of (cp_pool s') k = [] /\
+  (forall m, In m (r_byip (cp_rev s')) -> m_sub m <> k) /\
+  existsb (N.eqb sid) (cp_sess s') = false /\
+  existsb (fun e => pend_sid e =? sid) (cp_pend s') = false /\
+  existsb (N.eqb sid) (cp_deg s') = false /\
+  forall b, In b (blocks_of (cp_pool s) k) ->
+    forall k', limit_reached c (cp_pool s') k' = false ->
+               (c_paired c = true -> forall b', In b' (blocks_of (cp_pool s') k') -> b_ip b' = b_ip b) ->
+               exists p'', alloc_obs c (cp_pool s') k' b = Some p''.
+Proof. intros r p0 f ops sid dl Hs K. exact (s_comp_release_frees r p0 Hs f ops sid dl K). Qed.
+Print Assumptions C15_component_release_frees_all.
 
 (* ---- what the code violated before the fixes now in /repo (variant [defective] or a single missing repair) ---- *)
 
@@ -179,7 +214,7 @@ Theorem C15_reverse_lookup_refuted :
     rev_lookup (cp_rev s) 1681915905 1040 = Some m /\ m_sub m = 2 /\
     blocks_of (cp_pool s) 2 = [] /\ In (m_blk m) (blocks_of (cp_pool s) 3).
 Proof.
-  exists [CActivate 1 1 true None; CRestoreDegraded 2 {| b_ip := 1681915905; b_start := 1040; b_end := 1055 |};
+  exists [CActivate 1 1 true None; CRestoreDegraded 90 2 {| b_ip := 1681915905; b_start := 1040; b_end := 1055 |};
           CActivate 6 2 true None; CRelease 6 2 [true]; CActivate 7 3 true None].
   eexists. vm_compute. split; [reflexivity|]. split; [reflexivity|]. split; [reflexivity|]. left; reflexivity.
 Qed.
@@ -200,12 +235,12 @@ Print Assumptions C15_duplicate_address_refuted.
    nothing.  Only the rollback repair is missing in this variant. *)
 Definition only_rollback_missing : variant :=
   {| v_validate := true; v_replace := true; v_dedup := true; v_rollback := false; v_vrfkey := true; v_xpool := true;
-     v_late := true |}.
+     v_late := true; v_cfgcheck := true; v_degrel := true |}.
 Theorem C15_synced_rollback_refuted :
   exists ops m, let s := crun only_rollback_missing (effective ex_raw1) (comp_init (pool_of repaired ex_raw1)) ops in
     rev_lookup (cp_rev s) 1681915905 1040 = Some m /\ m_sub m = 2 /\ blocks_of (cp_pool s) 2 = [].
 Proof.
-  exists [CRestoreDegraded 2 {| b_ip := 1681915905; b_start := 1040; b_end := 1055 |};
+  exists [CRestoreDegraded 90 2 {| b_ip := 1681915905; b_start := 1040; b_end := 1055 |};
           CSynced 6 2 2 {| b_ip := 1681915905; b_start := 1040; b_end := 1055 |} false None].
   eexists. vm_compute. repeat split.
 Qed.
@@ -214,7 +249,7 @@ Print Assumptions C15_synced_rollback_refuted.
 (* ---- witnesses against the code before 53e73c2 / 1fd8c60 / 8d8ac1d (all fixed) ---- *)
 Definition with_flags (vrf xp late : bool) : variant :=
   {| v_validate := true; v_replace := true; v_dedup := true; v_rollback := true; v_vrfkey := vrf; v_xpool := xp;
-     v_late := late |}.
+     v_late := late; v_cfgcheck := true; v_degrel := true |}.
 
 (* Before 53e73c2 the component passed inside VRF 0 for every session: subscriber 5 (VRF 0, 10.0.0.5) and subscriber 65541
    (VRF 1, 10.0.0.5) are told the same block; when the first leaves, the second is left with a mapping the pool has
@@ -265,10 +300,52 @@ Proof.
 Qed.
 Print Assumptions C15_late_completion_refuted.
 
+(* ---- open findings (audit round 2): /repo HEAD = [repaired] without the two repairs named here ---- *)
+Definition head_v (cfgcheck degrel : bool) : variant :=
+  {| v_validate := true; v_replace := true; v_dedup := true; v_rollback := true; v_vrfkey := true; v_xpool := true;
+     v_late := true; v_cfgcheck := cfgcheck; v_degrel := degrel |}.
+
+(* Config.Validate accepts port-range "2000-1000".  ConfigurePool then counts ~2^32 usable ports; with block size
+   40000 the first three subscribers are given 2000-41999, 42000-16463 (the end wraps through uint16) and
+   16464-56463: outside any reading of the range, and subscriber 3 overlaps subscriber 1. *)
+Definition ex_raw_rev : rawcfg :=
+  {| r_bs := 40000; r_ratio := 0; r_range := Some (2000, 1000); r_max := 2; r_pooling := 1;
+     r_outside := [OIp 1681915905]; r_excluded := [] |}.
+Theorem C15_in_range_refuted :
+  exists p0, setup (head_v false true) ex_raw_rev = Some p0 /\
+    let p := run (head_v false true) (effective ex_raw_rev) p0 [OAlloc 1 None; OAlloc 2 None; OAlloc 3 None] in
+    blocks_of p 1 = [ {| b_ip := 1681915905; b_start := 2000; b_end := 41999 |} ] /\
+    blocks_of p 2 = [ {| b_ip := 1681915905; b_start := 42000; b_end := 16463 |} ] /\
+    blocks_of p 3 = [ {| b_ip := 1681915905; b_start := 16464; b_end := 56463 |} ] /\
+    mon_disjoint p = false /\ mon_range (effective ex_raw_rev) p = false.
+Proof. eexists. split; [vm_compute; reflexivity|]. vm_compute. repeat split. Qed.
+Print Assumptions C15_in_range_refuted.
+
+(* Config.Validate accepts block-size unset with subscriber-ratio 200 on a 128-port range: the derived block size is
+   0 and ConfigurePool panics (integer divide by zero) -- [setup] has no result. *)
+Definition ex_raw_bs0 : rawcfg :=
+  {| r_bs := 0; r_ratio := 200; r_range := Some (1024, 1151); r_max := 1; r_pooling := 1;
+     r_outside := [OIp 1681915905]; r_excluded := [] |}.
+Theorem C15_config_panic_refuted :
+  pool_ok ex_raw_bs0 = false /\ setup (head_v false true) ex_raw_bs0 = None /\ configure (head_v false true) ex_raw_bs0 = None.
+Proof. vm_compute. repeat split. Qed.
+Print Assumptions C15_config_panic_refuted.
+
+(* The degraded restore branch preserves subscriber 2's mapping for session 90 without recording the session; the
+   session's release finds "no pool mapping" and does nothing: the block and its reverse entry stay. *)
+Theorem C15_degraded_leak_refuted :
+  let v := head_v true false in
+  let s := crun v (effective ex_raw1) (comp_init (pool_of v ex_raw1))
+             [CRestoreDegraded 90 2 {| b_ip := 1681915905; b_start := 1040; b_end := 1055 |}; CRelease 90 2 []] in
+  blocks_of (cp_pool s) 2 = [ {| b_ip := 1681915905; b_start := 1040; b_end := 1055 |} ] /\
+  option_map m_sub (rev_lookup (cp_rev s) 1681915905 1040) = Some 2.
+Proof. vm_compute. split; reflexivity. Qed.
+Print Assumptions C15_degraded_leak_refuted.
+
 (* non-vacuity of the hypotheses: the same geometry, a history with allocations by two subscribers, a release, a
    valid restore and a refused (unaligned) restore, run on the repaired model *)
 Example C15_nonvacuous :
-  wf_range ex_raw /\ configure repaired ex_raw <> None /\
+  setup repaired ex_raw <> None /\
   let p := run repaired ex_cfg (pool_of repaired ex_raw)
              [OAlloc 1 None; OAlloc 1 None; OAlloc 2 None; ORelease 2;
               ORestore 3 {| b_ip := ex_base; b_start := 1030; b_end := 1045 |};
@@ -286,9 +363,9 @@ Print Assumptions C15_nonvacuous.
    (session 12, the late completion is ignored) and one whose add completes late (session 13); the lookups name the right owners and a released or rolled
    back port answers nothing *)
 Example C15_component_nonvacuous :
-  wf_range ex_raw1 /\ configure repaired ex_raw1 <> None /\
+  setup repaired ex_raw1 <> None /\
   let s := crun repaired (effective ex_raw1) (comp_init (pool_of repaired ex_raw1))
-             [CActivate 1 1 true None; CRestoreDegraded 2 {| b_ip := 1681915905; b_start := 1040; b_end := 1055 |};
+             [CActivate 1 1 true None; CRestoreDegraded 90 2 {| b_ip := 1681915905; b_start := 1040; b_end := 1055 |};
               CActivate 6 2 true None; CRestorePresent 8 4 {| b_ip := 1681915905; b_start := 1041; b_end := 1056 |} 0 None;
               CRestorePresent 10 4 {| b_ip := 1681915905; b_start := 1072; b_end := 1087 |} 1 None;
               CRelease 6 2 [false]; CComplete; CActivate 7 3 true None; CActivate 9 5 false None;
